@@ -593,6 +593,23 @@ theorem brentMax_none_iff (f : K → K) (sqrtEps gm xtol a b : K) (maxiter : Int
   unfold brentMax
   split <;> simp_all
 
+/-- **brent_max, argument checks** (the entry point with `np.isfinite` as the parameter `fin`):
+    `ValueError` exactly when `a` is not finite, `b` is not finite, or `a < b` fails; otherwise the call is
+    the checked routine `brentMax`. -/
+theorem brentMaxEntry_none_iff (fin : K → Bool) (f : K → K) (sqrtEps gm xtol a b : K) (maxiter : Int) :
+    (brentMaxEntry fin f sqrtEps gm xtol a b maxiter = none ↔ (fin a = false ∨ fin b = false ∨ ¬ a < b)) ∧
+    (fin a = true → fin b = true →
+      brentMaxEntry fin f sqrtEps gm xtol a b maxiter = brentMax f sqrtEps gm xtol a b maxiter) := by
+  unfold brentMaxEntry
+  constructor
+  · cases ha : fin a <;> cases hb : fin b <;> simp [brentMax_none_iff]
+  · intro ha hb; simp [ha, hb]
+
+example : brentMaxEntry (fun _ : Rat => true) (fun x => -((x - 1) * (x - 1))) (1 / 67108864) (3 / 8) (1 / 1000) 2 1 500 = none := by
+  decide +kernel
+example : (brentMaxEntry (fun x : Rat => decide (x < 1000)) (fun x => -((x - 1) * (x - 1))) (1 / 67108864) (3 / 8) (1 / 1000) 0 1000 500).isNone
+    = true := by decide +kernel
+
 /-- **brent_max on a strictly unimodal function** (mode `m ∈ [a, b]`, `xtol > 0`, `√ε ≥ 0`; the
     golden-section constant is arbitrary). The call returns `(xf, fval, status_flag, num)` with
     * `fval = f xf` (the reported value is the function value at the reported point);
@@ -1121,6 +1138,98 @@ theorem sort_ind_not_a_permutation_old_rule :
     s0.sind = [2, 0, 1] ∧ r.1.sind = [2, 1, 2] ∧ r.1.nit = 1 ∧ r.2 = false ∧
     (nmIter (quadObj A [3 / 4, -4] 0) P bounds s0).sind = [2, 0, 1] := by
   decide +kernel
+
+/-! ## `_check_params` and `_nelder_mead_algorithm` (caller-supplied simplex and coefficients) -/
+
+/-- **`_check_params`, exact characterisation.** The combination is accepted iff
+    `0 ≤ ρ`, `1 ≤ χ`, `ρ ≤ χ`, `0 ≤ γ ≤ 1`, `0 ≤ σ ≤ 1`, the bounds array has shape `(0,2)` or `(n,2)` and
+    no row has `lower > upper` — all inequalities WEAK, as in the code (its messages say "strictly"). -/
+theorem checkParams_iff (P : NMP K) (r c : Nat) (bounds : List (List K)) (n : Nat) :
+    checkParams P r c bounds n = true ↔
+      (0 ≤ P.ρ ∧ 1 ≤ P.χ ∧ P.ρ ≤ P.χ ∧ 0 ≤ P.γ ∧ P.γ ≤ 1 ∧ 0 ≤ P.σ ∧ P.σ ≤ 1 ∧
+       ((r = 0 ∧ c = 2) ∨ (r = n ∧ c = 2)) ∧ ∀ b ∈ bounds, b.getD 0 0 ≤ b.getD 1 0) := by
+  unfold checkParams
+  simp only [Bool.and_eq_true, Bool.not_eq_true', decide_eq_false_iff_not, not_lt, Bool.or_eq_false_iff,
+    Bool.or_eq_true, beq_iff_eq, List.any_eq_false, decide_eq_true_eq]
+  tauto
+
+example : checkParams (⟨1, 2, 1 / 2, 1 / 2, 0, 0, 0⟩ : NMP Rat) 2 2 [[0, 1], [-1, 1]] 2 = true := by decide +kernel
+example : checkParams (⟨0, 1, 0, 1, 0, 0, 0⟩ : NMP Rat) 0 2 [] 3 = true := by decide +kernel   -- all on the boundary
+example : checkParams (⟨1, 2, 1 / 2, 1 / 2, 0, 0, 0⟩ : NMP Rat) 2 2 [[0, 1], [1, -1]] 2 = false := by decide +kernel
+example : checkParams (⟨1, 2, 1 / 2, 1 / 2, 0, 0, 0⟩ : NMP Rat) 2 3 [[0, 1, 2], [0, 1, 2]] 2 = false := by decide +kernel
+
+/-- **`_nelder_mead_algorithm`, for every coefficient choice and every starting simplex.** `ValueError`
+    exactly when `_check_params` rejects; otherwise, for a starting simplex with `N ≥ 1` rows and `tol_f > 0`
+    (`B` = the bounds list, `F = _neg_bounded_fun`), the returned `(x, fun, success, nit, final_simplex)` satisfies
+    * `final_simplex` has `N` rows, `fun = −F(x)`, and `x` is its best row: `F(x) ≤ F(row)` for every row;
+    * `fun` is not below any row of the STARTING simplex: `−F(start row) ≤ fun`;
+    * `nit ≤ max_iter` and `success = True ⇔ nit < max_iter`.
+    (All the invariants proved for `nelder_mead` — consistent `f_val`, `sort_ind` a sorting permutation,
+    monotone best value — hold from an arbitrary start and for arbitrary `ρ, χ, γ, σ`: the loop lemmas never
+    use the default coefficients.) -/
+theorem nmAlgorithm_contract (f : List K → K) (P : NMP K) (r c : Nat) (boundsRows : List (List K))
+    (verts : List (List K)) (maxIter : Nat) :
+    (nmAlgorithm f P r c boundsRows verts maxIter = none ↔
+      checkParams P r c boundsRows (verts.headD []).length = false) ∧
+    (checkParams P r c boundsRows (verts.headD []).length = true → 1 ≤ verts.length → 0 < P.tolf →
+      let B : List (K × K) := if r = 0 then [] else boundsRows.map fun b => (b.getD 0 0, b.getD 1 0)
+      ∃ x fv ok nit vs, nmAlgorithm f P r c boundsRows verts maxIter = some (x, fv, ok, nit, vs) ∧
+        vs.length = verts.length ∧ fv = -(negF f P.pinf B x) ∧
+        (∀ i, i < verts.length → negF f P.pinf B x ≤ negF f P.pinf B (vs.getD i [])) ∧
+        (∀ i, i < verts.length → -(negF f P.pinf B (verts.getD i [])) ≤ fv) ∧
+        nit ≤ maxIter ∧ (ok = true ↔ nit < maxIter)) := by
+  constructor
+  · unfold nmAlgorithm
+    cases hc : checkParams P r c boundsRows (verts.headD []).length <;> simp
+  · intro hv hN htol B
+    have h := nmLoop_inv f P B verts.length maxIter hN htol (maxIter + 1) _
+      (nmInit_ok f P B verts) (nmInit_sind f P B verts) (nmInit_sortedPerm f P B verts)
+    have hst := nmLoop_status f P B maxIter (maxIter + 1) (nmInit f P B verts)
+      (Nat.zero_le _) (by show maxIter < 0 + (maxIter + 1); omega)
+    obtain ⟨hok, hsi, hsp, hbest⟩ := h
+    obtain ⟨_, hle, _, hfail⟩ := hst
+    generalize hr : nmLoop f P B maxIter (maxIter + 1) (nmInit f P B verts) = res at hok hsi hsp hbest hle hfail
+    have hperm := perm_range_of_nodup res.1.sind _ hsi.1 hsi.2 hsp.1
+    have hne : res.1.sind ≠ [] := by
+      intro h0; have := hsi.1; rw [h0] at this; simp at this; omega
+    have hb := hsi.head_lt hN
+    have hrow : ∀ i, i < verts.length → res.1.fval.getD i 0 = negF f P.pinf B (res.1.verts.getD i []) := by
+      intro i hi; rw [hok.1]; exact getD_map_of_lt _ _ _ _ _ (by rw [hok.2]; exact hi)
+    have hmin : ∀ i, i < verts.length → res.1.fval.getD (res.1.sind.getD 0 0) 0 ≤ res.1.fval.getD i 0 := by
+      intro i hi
+      have him : i ∈ res.1.sind := (hperm.mem_iff).mpr (List.mem_range.mpr hi)
+      cases hs : res.1.sind with
+      | nil => exact absurd hs hne
+      | cons a t =>
+        rw [hs] at him
+        have hp := hsp.2; rw [hs, List.pairwise_cons] at hp
+        simp only [List.getD_cons_zero]
+        rcases List.mem_cons.mp him with h | h
+        · rw [h]
+        · exact hp.1 i h
+    refine ⟨res.1.verts.getD (res.1.sind.getD 0 0) [], -(res.1.fval.getD (res.1.sind.getD 0 0) 0), !res.2, res.1.nit,
+      res.1.verts, ?_, hok.2, by rw [hrow _ hb], ?_, ?_, hle, by rw [hfail]; simp⟩
+    · unfold nmAlgorithm; rw [if_pos hv]; simp only [B] at hr ⊢; rw [hr]
+    · intro i hi; rw [← hrow _ hb, ← hrow i hi]; exact hmin i hi
+    · intro i hi
+      have h0 : bestVal (nmInit f P B verts) ≤ negF f P.pinf B (verts.getD i []) := by
+        unfold bestVal nmInit
+        simp only
+        have := argsort_head_min (verts.map (negF f P.pinf B)) i (by simpa using hi)
+        rw [getD_map_of_lt _ _ i _ [] hi] at this
+        exact this
+      have := le_trans hbest h0
+      unfold bestVal at this
+      exact neg_le_neg this
+
+/-- non-vacuity: a 1-D run from a caller-supplied simplex with non-default coefficients
+    (`ρ = 3/2`, `χ = 5/2`, `γ = 1/4`, `σ = 3/4`), bounds `[0, 3]` -/
+example : (match nmAlgorithm (quadObj [[(2 : Rat)]] [1] 0) ⟨3 / 2, 5 / 2, 1 / 4, 3 / 4, 1 / 1000, 1 / 1000, 1000000⟩ 1 2 [[0, 3]]
+      [[2], [5 / 2]] 50 with
+    | some (x, fv, _, nit, vs) => decide (0 ≤ fv + 2) && fv == quadObj [[(2 : Rat)]] [1] 0 x && vs.length == 2 && decide (nit ≤ 50)
+    | none => false) = true := by decide +kernel
+example : nmAlgorithm (quadObj [[(2 : Rat)]] [1] 0) ⟨-1, 5 / 2, 1 / 4, 3 / 4, 1 / 1000, 1 / 1000, 1000000⟩ 1 2 [[0, 3]]
+    [[2], [5 / 2]] 50 = none := by decide +kernel
 
 end nmfield
 
